@@ -21,6 +21,7 @@ RULE = ("names from a metacharacter-biased generator (double quotes single / dou
         "one non-alphanumeric character.")
 RULE += ("  " + 'Also: append_stream, is_file/is_dir, recursive list, high-level download/upload, recursive remove; permission entries on other names that merely share a string prefix with the name; both sides configured with encoding latin-1.')
 RULE += ("  " + 'Also: the same relative spelling twice in a row (the directory, then from inside it the file of the same name).')
+RULE += ("  " + 'Also (round 9): PASV (not only EPSV) sessions on a latin-1 server.')
 ASSUMPTIONS = ["MemoryPathIO back end (names are opaque strings there; a real file system adds its own restrictions)",
                "utf-8 on both sides"]
 REQUIRED_MONITORS = ["steps_checked", "pwd_roundtrip", "listing_names"]
